@@ -361,6 +361,22 @@ pub fn run_c08(ctx: &Ctx) -> i32 {
         sink.merge(s);
         p2_n += k;
     }
+    // phase 3: one long history (every ordered pair of outcome kinds, over and over: 11 520 outcomes in one
+    // daemon lifetime) - for whatever only arms after many events (counters, state carried along)
+    let mut long_seq: Vec<Out> = vec![];
+    for _ in 0..40 {
+        for a in ALL_OUT {
+            for b in ALL_OUT {
+                long_seq.push(a);
+                long_seq.push(b);
+            }
+        }
+    }
+    {
+        let mut st = BTreeSet::new();
+        let mut tr = BTreeSet::new();
+        c08_check(&long_seq, 1000, 12345, 5000, &mut sink, &mut st, &mut tr);
+    }
     let sample_seq = vec![Out::S1, Out::Ng, Out::U, Out::S2, Out::N];
     let sample = publish_seq(&sample_seq, 1000, 12345, 5000).unwrap_or_default();
     let coverage = cov(vec![
@@ -373,6 +389,7 @@ pub fn run_c08(ctx: &Ctx) -> i32 {
         ("rule", json!("every sequence of poll outcomes of the stated depth over 10 outcome kinds, for each configuration; every sequence is distinct; every publication of every prefix is compared field by field with the reference updater")),
         ("depth", json!(depth)),
         ("pipeline_phase", json!({"histories": p2_n, "depth": p2_depth, "step_alphabet": p2_alpha.len(), "what": "poll answers (tracking with the PHC's id and a readable / unreadable PHC file, another id, unsynchronised, stale, silence) x gap 1 s / 5.1 s through the real poller and the real writer loop; status compared with the documented one for the outcome"})),
+        ("long_history_outcomes", json!(long_seq.len())),
         ("outcome_kinds", json!(ALL_OUT.iter().map(|o| o.name()).collect::<Vec<_>>())),
         ("configurations_drift_ppb_phc_ns", json!(cfgs)),
         ("reference_states", json!("(status class of the latest outcome, which synchronised report is frozen, whether one was seen)")),
@@ -908,7 +925,28 @@ pub fn run_c13(ctx: &Ctx) -> i32 {
         graces.0 += g.0;
         graces.1 += g.1;
     }
+    // one long lifetime: the whole step alphabet, 150 times over, through one poller
+    let mut long_steps: Vec<Step> = vec![];
+    for _ in 0..150 {
+        long_steps.extend(alpha.iter().cloned());
+    }
+    {
+        let dir = base.join("c13-long");
+        let _ = std::fs::create_dir_all(&dir);
+        match c13_run(&long_steps, true, &dir) {
+            Ok(res) => {
+                for (k, (got, exp)) in res.iter().enumerate() {
+                    if got.len() != 1 || !class_matches(&got[0], exp) {
+                        sink.add("C13:long-lifetime".into(), format!("poll {k} of a {}-poll lifetime: poller sent {:?} where {} is expected", long_steps.len(), got, exp), json!({"check": "C13", "phase": "long lifetime", "failing_step": k, "observed": got, "expected": exp}));
+                        break;
+                    }
+                }
+            }
+            Err(e) => sink.add("C13:panic".into(), format!("poller panicked in the long lifetime: {e}"), json!({"check": "C13", "phase": "long lifetime"})),
+        }
+    }
     let coverage = cov(vec![
+        ("long_lifetime_polls", json!(long_steps.len())),
         ("states", json!(alpha.len() * 2)),
         ("transitions", json!(n * depth as u64)),
         ("traces_validated_against_impl", json!(n)),
